@@ -601,7 +601,8 @@ func (r *resolver) strDepth(e ast.Expr, depth int) string {
 				return id.Name + "." + v.Sel.Name
 			}
 		}
-		return r.strDepth(v.X, depth) + "." + v.Sel.Name
+		// (a pointer alias "px := &ref.pendingXattr" selects the fields of what it points to)
+		return strings.TrimPrefix(r.strDepth(v.X, depth), "&") + "." + v.Sel.Name
 	case *ast.CallExpr:
 		if r.exprFuncs && depth < 4 {
 			if tf := r.l.FuncOf(callee(r.info, v)); tf != nil && tf.Pkg.TypesInfo == r.info {
@@ -620,7 +621,11 @@ func (r *resolver) strDepth(e ast.Expr, depth int) string {
 		}
 		return r.strDepth(v.Fun, depth) + "(" + strings.Join(args, ", ") + ")"
 	case *ast.StarExpr:
-		return "*" + r.strDepth(v.X, depth)
+		if xs := r.strDepth(v.X, depth); strings.HasPrefix(xs, "&") {
+			return xs[1:]
+		} else {
+			return "*" + xs
+		}
 	case *ast.UnaryExpr:
 		return v.Op.String() + r.strDepth(v.X, depth)
 	case *ast.BinaryExpr:
